@@ -61,6 +61,7 @@ def check_c13(prog, rep, tier, cfg):
     c13h(prog, rep)
     c13i(prog, rep)
     c13j(prog, rep)
+    c13k(prog, rep)
 
 
 def c13g(prog, rep):
@@ -254,6 +255,41 @@ def c13j(prog, rep, R="C13.j"):
               "after text_literal has decided that a literal is of kind MultiLine it can still run a segment scanner of single-line literals: `#` escapes or quoted segments written directly "
               "behind the closing quotes become part of the token, its last line is no longer blanks and quotes, and the string formatter leaves the literal's indentation alone",
               where="%s:%d" % (b.file, b.line), instance={"decision_points": len(sites), "segment_scanner_calls": len(scan_calls)})
+
+
+def c13k(prog, rep, R="C13.k"):
+    """C13.k — "a character string is one token": `#13#10`, `#$D#$A`, `#%1#%0` written one after the other belong to the same literal.  The
+    segment scanner of text_literal that takes a *run* of `#` character codes (the one with a loop) answers `Continue` — go on with the
+    next kind of segment — only where it has looked at the byte at the current position and found no further `#`: on every path of one
+    iteration (its helpers expanded) that returns Continue nothing has been consumed.  An arm that returns right after its digits
+    (`return consume_prefixed_digits(..)`) ends the run after one hex / binary code, and the wrapper may break the line inside the
+    constant."""
+    from table import Table, TooComplex, render
+    b = prog.body(LX + "text_literal")
+    if not rep.check(b is not None, R, "anchor:text_literal", "text_literal not found"):
+        return
+    scanners = [x for x in prog.bodies.values() if x.npath.startswith(b.npath + "::consume_") and x.kind != "Closure" and x.loops()]
+    if not rep.check(len(scanners) >= 1, R, "anchor:run-scanner", "text_literal has no segment scanner with a loop any more (the scanner of consecutive `#` character codes)"):
+        return
+    n = 0
+    for x in scanners:
+        heads = set(x.loops())
+        bad = []
+        try:
+            for h in sorted(heads):
+                tb = Table(prog, x, start=h, stop=heads, inline=1, max_paths=6000)
+                for (cons, res), eff, end in zip(tb.rows, tb.effects, tb.ends):
+                    if end is None and res is not None and render(res) == "Continue":
+                        n += 1
+                        if eff:
+                            bad.append("returns Continue after consuming (%s)" % "; ".join(str(e)[:50] for e in eff[:2]))
+        except TooComplex as e:
+            rep.fail(R, "run-scanner:table:" + short(x.npath), "one iteration of %s can no longer be enumerated path by path: %s" % (short(x.npath), e))
+            continue
+        rep.check(not bad, R, "run-of-character-codes-ends-only-at-a-non-hash:%s" % short(x.npath),
+                  "%s: %s — the run of `#` character codes ends there although another `#` may follow: `'a'#$D#$A'b'` is cut into `'a'#$D` and `#$A'b'`" % (short(x.npath), bad[:2]),
+                  where="%s:%d" % (x.file, x.line), instance={"scanner": short(x.npath), "paths_returning_Continue": n})
+    rep.floor(R, "paths of the run scanner that return Continue", n, 1)
 
 
 def c13a(prog, rep):
